@@ -344,7 +344,7 @@ func runC02(w *World, rng *rand.Rand, div int) {
 	_ = fmt.Sprint
 }
 
-var faultKinds = []string{"blackout", "drop_req", "drop_resp", "not_leader", "epoch_not_match", "server_busy", "stale_command", "split", "expire_resolve", "push_minc"}
+var faultKinds = []string{"blackout", "drop_req", "drop_resp", "not_leader", "epoch_not_match", "server_busy", "stale_command", "split", "expire_resolve", "push_minc", "undetermined"}
 
 func faultAction(w *World, r *Run, f string, tag string) Action {
 	switch f {
